@@ -17,6 +17,12 @@ CLAIMS = {
  'C02': ('pzv-scheme', 'model-based testing of random straight-line programs (plaintext model of every ciphertext column as exact torus values)',
          'Random programs (1..12 steps) of add/sub/negate/copy/rotate/(X^k-1)/shift/normalise incl. all in-place forms over a register file of GLWE ciphertexts with independent sizes, a rank-0 operand and a cross-radix register; every column of the destination is compared after every step with the operation applied to the operands\' exact values (tolerance: exactly what truncated limbs can carry / one unit for rounding shifts), plus the phase under a generated key.',
          'Trusted: the dyadic value model. Right shifts are modelled on the unreduced value of the limb vector, as the library defines them.', 'DESIGN.md section 6 C02'),
+ 'C06': ('pzv-scheme', 'statistical property-based testing: model-free error extraction (difference of two encryptions sharing the mask seed) with exact discrete-moment oracles and concentration bounds at a fixed false-alarm budget',
+         'For every encryption routine family (GLWE sk/pk, GGLWE, GGSW, switching/automorphism/tensor keys, compressed forms) over generated layouts: every error coefficient is inside the configured truncation bound (deterministic, every case); pooled over >= 2^15 (quick) / 2^17 (thorough) coefficients per case the second moment of e1-e2 matches twice the exact variance of the rounded truncated Gaussian (band from the exact fourth moment, per-run false-alarm budget 2^-30), the mean is centred, masks are not reused between cells and two seeds give different masks.',
+         'Statistical: a deviation of the standard deviation below roughly 6 % (quick) / 3 % (thorough) is inside the band and not detected; distribution shape beyond the first four moments is not tested. Trusted: hook H4, the moment formulas (unit-tested against brute force).', 'DESIGN.md section 6 C06'),
+ 'C19': ('pzv-scheme', 'property-based round-trip / differential testing: compressed form + seed -> decompress vs. exact phase oracle and vs. the same object built through serialisation',
+         'For GLWE, GGLWE, GGSW, switching, automorphism and tensor keys over generated layouts on four backends: the decompressed object decrypts (exact integer phase under the clear secret, hook H4) to the gadget-scaled message in every cell within the truncation bound, mask columns equal the stream regenerated from the stored seed, decompression after a serialise/deserialise round trip yields identical bytes, and decompression is deterministic (twice -> same bytes).',
+         'The order-agnostic variant (decompressing cells in a different order) is not exercised: the library exposes no such entry point.', 'DESIGN.md section 6 C19'),
  'C13': ('pzv-bin', 'structure-aware generated search over the compiled tables (hook H1): exhaustive structural validity, directed edge coverage, exhaustive sub-cubes, random pairs against u32 semantics',
          'All 290 bit-circuits of the 11 compiled u32 circuits are read through hook H1 and evaluated by a clear evaluator that mirrors eval_level: every table is checked structurally (exhaustive), every edge of every table is exercised by directed inputs (100 % edge coverage measured), all 2^16 low-byte pairs under several high patterns, all shift amounts, carry chains and sign boundaries are enumerated and millions of random/boundary pairs compared with Rust u32 semantics.',
          'Not a proof for all 2^64 pairs (the statement asks for a symbolic decision, which is outside this technique family): an error confined to inputs sharing every table edge with correct sampled completions would escape. Trusted: the clear evaluator (cross-checked against the homomorphic one in C15).', 'DESIGN.md section 6 C13'),
